@@ -201,7 +201,8 @@ def syn_mdef(rng, swap=False, hetero=False):
     s.hdr_text_end = 0
     s.text(b"FDMB" if swap else b"BMDF")
     s.fields["magic"] = 0
-    desc = b"bin mdef" + b"\0" * (4 * rng.range(1, 2))
+    # D19j: a descriptor that is not a multiple of 4 bytes (tables misaligned) must be refused
+    desc = b"bin mdef" + b"\0" * (4 * rng.range(1, 2) if rng.chance(0.75) else rng.range(1, 7))
     s.u32(1, "version"); s.u32(len(desc), "desc_len"); s.text(desc)
     n_ci, n_cd, n_emit = rng.range(1, 4), rng.range(0, 4), rng.range(1, 3)
     n_phone = n_ci + n_cd
@@ -243,6 +244,71 @@ def syn_mdef(rng, swap=False, hetero=False):
     if hetero:
         s.text(bytes(lens))
     return s, ("mdef",)
+
+
+def syn_am(rng, stats):
+    """a consistent set mdef / tmat / means / variances / sendump|mixw for a 39-dim front end, with (mostly) one
+    cross-file mismatch: returns [(label, line-words-after-id)]"""
+    three = rng.chance(0.5)
+    streams = [13, 13, 13] if three else [39]
+    md, _ = syn_mdef(rng, False, rng.chance(0.2))
+    b = bytes(md.b)
+    n_ci = struct.unpack_from("<i", b, md.fields["n_ciphone"])[0]
+    n_sen = struct.unpack_from("<i", b, md.fields["n_sen"])[0]
+    kind = rng.weighted([("ok", 3), ("mixw_sen+", 3), ("mixw_sen-", 3), ("n_mgau", 2), ("one_cb", 3), ("veclen", 2),
+                         ("nfeat", 1), ("dens", 2), ("ntmat", 2), ("sen_dump", 2), ("cont", 1)])
+    n_mgau = n_ci
+    if kind == "n_mgau":
+        n_mgau = n_ci + rng.choice([1, 2])
+    if kind == "one_cb":
+        n_mgau = 1
+    if kind == "cont":
+        n_mgau = n_sen if n_sen not in (1, n_ci) else n_sen + 1
+    dens = rng.range(1, 2)
+    vl = list(streams)
+    if kind == "veclen":
+        vl[rng.below(len(vl))] += rng.choice([1, -1])
+    if kind == "nfeat":
+        vl = vl + [13] if three else [13, 13, 13]
+    means, _ = syn_gau(rng, False, True, "plain", dims=(n_mgau, len(vl), dens, vl))
+    vars_, _ = syn_gau(rng, False, True, "plain", var=True, dims=(n_mgau, len(vl), dens, vl))
+    tm = s3_header(rng, False, True, "plain")
+    nt = n_ci - 1 if (kind == "ntmat" and n_ci > 1) else n_ci
+    tm.u32(nt, "n_tmat"); tm.u32(3, "n_src"); tm.u32(4, "n_dst"); tm.u32(nt * 12, "n")
+    for _ in range(nt):
+        for j in range(3):
+            for k in range(4):
+                tm.u32(f2u(0.5 if k in (j, j + 1) else 0.0))
+    syn_finish(tm)
+    use_sd = rng.chance(0.4) if kind not in ("mixw_sen+", "mixw_sen-", "cont") else False
+    if kind == "sen_dump":
+        use_sd = True
+    ms = n_sen + (1 if kind == "mixw_sen+" else -1 if (kind == "mixw_sen-" and n_sen > 1) else 0)
+    mdens = dens + (1 if kind == "dens" else 0)
+    if use_sd:
+        x = Syn(False)
+        title = b"synthetic dump\0"
+        x.u32(len(title)); x.text(title)
+        x.u32(4); x.text(b"hdr\0")
+        for t in (b"feature_count %d\0" % len(vl), b"mixture_count %d\0" % mdens):
+            x.u32(len(t)); x.text(t)
+        x.u32(0)
+        cols = n_sen + (-1 if kind == "sen_dump" and n_sen > 1 else 0)
+        x.u32(mdens); x.u32(cols)
+        x.text(bytes((i * 5) & 255 for i in range(len(vl) * mdens * cols)))
+        xb = bytes(x.b)
+    else:
+        x = s3_header(rng, False, True, "plain")
+        x.u32(ms); x.u32(len(vl)); x.u32(mdens); x.u32(ms * len(vl) * mdens)
+        for i in range(ms * len(vl) * mdens):
+            x.u32(f2u(0.1 + 0.2 * (i % 4)))
+        xb = bytes(syn_finish(x).b)
+    stats["am_kinds"][kind] = stats["am_kinds"].get(kind, 0) + 1
+    out = []
+    for ct in ("1", "0"):
+        out.append((kind, ["am", ct, ",".join(str(v) for v in streams), hx(b), "-", hx(bytes(tm.b)), "-", hx(bytes(means.b)), "-",
+                           hx(bytes(vars_.b)), "-", "sd" if use_sd else "mx", hx(xb), "-"]))
+    return out
 
 
 def s3_line(cid, target, hexes_edits):
@@ -410,7 +476,7 @@ def judge_a(case, cl, ml):
         return False, {"why": "implementation died: " + (signature(d) or "?"), "impl": cl[:900], "model": mcore,
                        "impl_violates": True, "sig": signature(d) or "died"}
     ccore = cl.split(" | ")[0].split(" ", 1)[1]
-    _, d = parse_kv(cl.split(" | ")[1])
+    _, d = parse_kv("meta " + cl.split(" | ")[1])       # (the metadata part has no leading id word)
     sig = signature(d)
     if sig:
         return False, {"why": "implementation: " + sig, "impl": cl[:900], "model": mcore, "impl_violates": True,
@@ -481,6 +547,30 @@ def gen_stage_a(c, A, tier, stats):
     for d in ((1, 0, 0), (0, 1, 0), (0, 0, 1), (0, 0, -1)):
         t2 = ("sd", t[1] + d[0], t[2] + d[1], t[3] + d[2])
         A.add(t2, [(hx(bytes(s.b)), "-")], {"target": "sd", "file": "syn-sd", "kind": "params"})
+    # the mixture-weight reader of ms_senone.c: same files as read_mixw; dimensions whose 32-bit product wraps
+    for v in range(nvar):
+        sx, _ = syn_mixw(rng, v % 2 == 1, v % 3 != 2, ["plain", "rich", "old"][v % 3])
+        b = bytes(sx.b)
+        meta = {"target": "sen", "file": "syn-sen"}
+        A.add(("sen",), [(hx(b), "-")], dict(meta, kind="intact"))
+        for t in range(len(b)):
+            A.add(("sen",), [(hx(b), f"t{t}")], dict(meta, kind="trunc", must_reject=True))
+        for fname, off in sx.fields.items():
+            x = struct.unpack_from("<I", b, off)[0]
+            for val in VALS(x):
+                A.add(("sen",), [(hx(b), f"w{off}:{val:x}")], dict(meta, kind="chksum" if fname == "chksum" else "field", field=fname))
+    wrap = s3_header(rng, False, False, "plain")
+    wrap.u32(0x10000); wrap.u32(0x10000); wrap.u32(1); wrap.u32(0)
+    A.add(("sen",), [(hx(bytes(wrap.b) + bytes(64)), "-")], {"target": "sen", "file": "syn-sen", "kind": "wrap"})
+    wrap = s3_header(rng, False, False, "plain")
+    wrap.u32(0x8001); wrap.u32(0x10000); wrap.u32(2); wrap.u32(0x20000)
+    A.add(("sen",), [(hx(bytes(wrap.b) + bytes(64)), "-")], {"target": "sen", "file": "syn-sen", "kind": "wrap"})
+    # the assembly of the acoustic model from consistent files with one cross-file mismatch
+    stats["am_kinds"] = {}
+    for _ in range(40 if tier == "quick" else 400):
+        for kind, words in syn_am(rng, stats):
+            cid = f"a{A.n}"; A.n += 1
+            A.cases.append((cid, " ".join([cid] + words), {"target": "am", "file": "syn-am", "kind": kind}))
     # mixture weights read for codebooks with other dimensions
     s, t = syn_mixw(rng, False, True, "plain")
     for d in ((1, 0), (0, 1)):
@@ -654,6 +744,42 @@ def meta_of_edit(model_dir, fn, ed):
     return {"kind": "other"}
 
 
+def model_assembly(c, tag, model_dir, plan_accepts):
+    """for every damaged bundled file that its own plan accepts: what the model of acmod_load_am (decoder_init path)
+    and of the in-memory sequence says about the whole model directory -> {(fn, ed, mode): 'acc'|'rej'}"""
+    files = {"mdef": "mdef", "transition_matrices": "tmat", "means": "means", "variances": "vars", "sendump": "sd"}
+    b = (model_dir / "means").read_bytes()
+    L = layout("means", b)
+    nf = struct.unpack_from("<i", b, L["fields"]["n_feat"])[0]
+    streams = ",".join(str(struct.unpack_from("<i", b, L["fields"][f"veclen{i}"])[0]) for i in range(nf))
+    qs = []
+    for key, acc in sorted(plan_accepts.items(), key=str):
+        fn, ed = key
+        if fn not in files or not acc:
+            continue
+        for mode, ct in (("mmap", "1"), ("mem", "0")):
+            e = {k: "-" for k in files}
+            e[fn] = ed
+            qs.append(((fn, ed, mode), " ".join([f"q{len(qs)}", "am", ct, streams] + [x for k in ("mdef", "transition_matrices", "means", "variances")
+                                                                                     for x in ("@" + str(model_dir / k), e[k])]
+                                                + ["sd", "@" + str(model_dir / "sendump"), e["sendump"]])))
+    if not qs:
+        return {}
+
+    def mworker(chunk):
+        rc, out, err = vlib.run_driver("c17", "\n".join(l for _, l in chunk) + "\n", timeout=3000)
+        return out
+    outs = run_parallel(mworker, [x for x in split(qs, 4) if x], 4)
+    res = {}
+    byid = {l.split()[0]: k for k, l in qs}
+    for out in outs:
+        for l in out.split("\n"):
+            w = l.split()
+            if w and w[0] in byid:
+                res[byid[w[0]]] = "acc" if len(w) > 1 and w[1] == "ok" else "rej"
+    return res
+
+
 def expected_b(fault, plan_accepts, model_dir=None):
     """expected decoder_init outcome of a stage-B fault: 'acc', 'rej' or None (= not judged, only cleanliness)"""
     mode, fn, ed, meta = fault
@@ -675,6 +801,12 @@ def expected_b(fault, plan_accepts, model_dir=None):
         return "rej" if fn not in ("feat_params.json", "noisedict.txt") else None
     if fn in ("feat_params.json", "noisedict.txt"):
         return None
+    am = plan_accepts.get("__am__")
+    if am is not None and fn in ("mdef", "transition_matrices", "means", "variances", "sendump"):
+        # model-derived: a file its own plan rejects makes every loader fail; otherwise the assembly plan decides
+        if not plan_accepts.get((fn, ed), False):
+            return "rej"
+        return am.get((fn, ed, mode))
     if fn == "mdef":
         # model-derived: bin_mdef_read accepts iff the plan model does; the assembled decoder additionally needs the
         # codebook count (= n_ciphone) and the senone count of the other files, and (decoder_init only) n_tmat <= #tmat
@@ -767,8 +899,31 @@ def finding_key(stage, file, kind, sig):
     return f"{stage}:{file}:{kind}:{sig}"
 
 
+def pending_findings():
+    """defect classes with a proposed repair under fixes/ that is not (yet) in the tree under test; kept next to the
+    corpus so that the coordinator can drop an entry when its patch is applied or move it to known_findings.json"""
+    p = vlib.ROOT / "corpus" / "C17" / "pending-findings.json"
+    if not p.exists():
+        return []
+    return json.loads(p.read_text()).get("pending", [])
+
+
+def pending_match(key, pend):
+    for e in pend:
+        if re.fullmatch(e["pattern"], key):
+            return e
+    return None
+
+
 def report(c, groups, limit=16):
     """one replay per (stage,file,kind,signature) class, smallest witness first"""
+    pend = pending_findings()
+    for key in sorted(groups):
+        e = pending_match(key, pend)
+        if e is not None:
+            if key not in [k for k, _ in c.known_hits]:
+                c.known_hits.append((key, f"pending repair {e['fix']}: {e['what']} ({len(groups[key])} witnesses)"))
+            del groups[key]
     order = sorted(groups, key=lambda k: (0 if k.startswith("B:") else 1, k))
     for key in order[:limit]:
         items = groups[key]
@@ -853,8 +1008,11 @@ def check(c):
                           {"stage": "A (reader/loader level, in-memory)", "case": line[:3000], "why": info["why"],
                            "implementation": info.get("impl"), "model": info.get("model")},
                           found=info["impl_violates"])
-    c.oblige(f"stage A: real reader/loaders (ASan/UBSan/LSan, exact-size buffers) = model on {len(A.cases)} cases", a_bad == 0,
-             f"{a_bad} cases differ / die")
+    pend = pending_findings()
+    a_pending = sum(len(v) for k, v in groups.items() if k.startswith("A:") and pending_match(k, pend))
+    c.oblige(f"stage A: real reader/loaders (ASan/UBSan/LSan, exact-size buffers) = model on {len(A.cases)} cases"
+             + (f" ({a_pending} witnesses of pending repairs reported as findings)" if a_pending else ""),
+             a_bad - a_pending == 0, f"{a_bad - a_pending} cases differ / die")
     def accepted(l):
         core = l.split(" | ")[0].split(" ", 1)[-1]
         return core.startswith(("ok", "H:")) and not any(t in core for t in ("rej", "OOB", "IDX", "bad"))
@@ -874,6 +1032,9 @@ def check(c):
     # ---- stage B
     b_total, b_kinds, b_sites, b_out = 0, {}, {}, {}
     for tag in models:
+        plan_accepts[tag]["__am__"] = model_assembly(c, tag, vlib.REPO / "model" / tag,
+                                                     {k: v for k, v in plan_accepts[tag].items() if isinstance(k, tuple) and len(k) == 2 and k[0] != "mdef-core"})
+        stats.setdefault("assembly_queries", {})[tag] = len(plan_accepts[tag]["__am__"])
         faults = gen_stage_b(c, c.tier, envs[tag][0], tag, stats)
         corp = vlib.ROOT / "corpus" / "C17" / f"dec-{tag}.txt"
         if corp.exists():
@@ -898,7 +1059,7 @@ def check(c):
                               {"stage": "B (decoder_init with a damaged model directory)", "model": tag,
                                "fault": {"path": mode, "file": fn, "edits": ed, "field": meta.get("field")},
                                "observed": (d or {}).get("_line"), "expected": exp, "why": f"{bad[0]}: {bad[1]}"})
-    nb = sum(len(v) for k, v in groups.items() if k.startswith("B:"))
+    nb = sum(len(v) for k, v in groups.items() if k.startswith("B:") and not pending_match(k, pend))
     c.oblige(f"stage B: {b_total} single faults over {models}: rejected (or benign, as predicted) without exit/abort/sanitizer report/leak, intact model loads afterwards",
              nb == 0, f"{nb} faults violate")
     report(c, groups)
@@ -911,7 +1072,8 @@ def check(c):
                   "stageA_model_outcomes_by_site": dict(sorted(model_sites.items(), key=lambda x: -x[1])[:60]),
                   "synthetic_files": stats["syn_files"], "stageB_faults": b_total, "stageB_by_file_kind_path": b_kinds,
                   "stageB_outcomes": b_out, "stageB_reject_sites": dict(sorted(b_sites.items(), key=lambda x: -x[1])[:50]),
-                  "bundled_files_bytes": stats["b_files"], "models": models, "workers": nw,
+                  "bundled_files_bytes": stats["b_files"], "assembly_cases_by_kind": stats.get("am_kinds"),
+                  "stageB_expectations_from_assembly_model": stats.get("assembly_queries"), "models": models, "workers": nw,
                   "violation_classes": sorted(groups), "wall_enumeration_s": round(time.time() - t_start, 1)})
     for cid, line, meta in A.cases[:3]:
         c.samples.append({"stageA": line[:200], "impl": (cres.get(cid) or "")[:200], "model": (mres.get(cid) or "")[:200]})
